@@ -48,6 +48,7 @@ CONSTANTS NSyms,      \* number of assignable symbols (prefix of A, B, C, D)
           MaxFeat,    \* bound on (#symbols that occur) + (#guarded statements) + (1 if ODE): keeps the quick tier small
           MaxAdm,     \* enumerate admissible removal sets only when at most MaxAdm statements are candidates
           MinEmit,    \* programs shorter than this are not emitted
+          MinCands,   \* ... nor programs without a removal query that has at least MinCands candidate statements
           MaxRmSet,   \* remove_symbol_definitions is queried with symbol sets of at most this size
           ChainMode,  \* BOOLEAN: def-use chain family -- every right hand side is ONE atom, the leaf of the position or a
                       \* symbol that an earlier statement defines (exhaustive family for long dependency chains)
@@ -310,12 +311,14 @@ T3_DepBounds == \A s \in QSyms : DepLo(s) \subseteq DepUp(s)
 DepInitLost(s) == LET r == DepImpl(prog, reads, s) IN r.o = "set" /\ ~(DepLo(s) \subseteq r.s)
 \* T4: the removal algorithm's answer is admissible
 RmOk(P, G, v0, S, k, R) == R \subseteq Cands(P, G, S, k) /\ SoundV(P, v0, R) /\ Complete(P, S, k, R)
+\* (without a definition of S before k there is no candidate: the answer {} is trivially admissible)
 T4_Remove == \A k \in 1..Len(prog), S \in RmSets :
-                RmPre(prog, S, k) => RmOk(prog, reads, vals, S, k, RemoveImpl(prog, reads, S, k))
+                (RmPre(prog, S, k) /\ \E i \in 1..(k - 1) : ~IsOde(prog[i]) /\ prog[i].lhs \in S)
+                   => RmOk(prog, reads, vals, S, k, RemoveImpl(prog, reads, S, k))
 \* T5: the backwards loop is "delete the earlier definitions, replace the last"
 T5_Reassign == \A s \in Syms : ReassignImpl(prog, s, RaExpr) = RefReassign(prog, s, RaExpr)
 \* T6: renaming a leaf commutes with execution
-T6_Subs == \A b \in {P2} :
+T6_Subs == P1 \in UsedLeaves(prog) => \A b \in {P2} :    \* (nothing to rename otherwise)
               LET Q == RefSubs(prog, P1, b)
                   r == RunSeq(Q, Len(Q))
               IN /\ \A s \in Vars : r.env[s] = RenV(env[s], P1, b)
@@ -352,5 +355,10 @@ Case == [n |-> Len(prog), ode |-> HasOde(prog), nore |-> NoReassign(prog),
          sb |-> {[a |-> Name[x[1]], b |-> Name[x[2]], p |-> ProgJ(RefSubs(prog, x[1], x[2]))] : x \in {<<P1, Q1>>, <<P1, P2>>, <<1, Q1>>}},
          used |-> Names(UsedLeaves(prog))]
 Sampled == ((HashP(prog, Len(prog)) * 13 + Len(prog)) % 9973) % SampleMod = SampleRes
-EmitCase == (pc >= MinEmit /\ Sampled) => PrintT(<<"CASE", ToJson(Case)>>)
+\* (chain family: only the programs with a removal query whose candidates form a chain of >= MinCands statements one
+\*  of which is still read AFTER the edited statement are emitted -- the class where the protection of readers matters)
+DeepQuery == MinCands = 0 \/ \E k \in 1..Len(prog), S \in RmSets :
+                /\ RmPre(prog, S, k) /\ Cardinality(Cands(prog, reads, S, k)) >= MinCands
+                /\ \E e \in reads : e[1] > k /\ e[2] \in Cands(prog, reads, S, k)
+EmitCase == (pc >= MinEmit /\ Sampled /\ DeepQuery) => PrintT(<<"CASE", ToJson(Case)>>)
 =============================================================================
